@@ -257,7 +257,7 @@ def obligations():
                       bound=f"every sequence of two problems from a pool of {len(POOL)} followed by a third, input as dictionary / model / same model reused / dictionary holding validated records, reused (exhaustive)",
                       doc="SEQUENCES")
     obs += split(base, input_given_as=HOW, then=POOL)
-    for o in C16.obligations():
+    for o in C16._own_obligations():
         if o.name == "C16.wrapper.b":
             obs.append(Obligation("C11.cache.b", o.fn, kind=o.kind, bound=o.bound, functions=o.functions, stubs=o.stubs, doc="CACHE (shared with C16)"))
         if o.name == "C16.history.b":
